@@ -26,6 +26,11 @@ reads; everything after `|` is reconstruction data):
   c17cminit    <alpha> <column>*K
   c17sminit    <alpha> <pyarg> <column>*K
 
+                            | latetype | lateraise | lateos (read(0) returns b"" — the probe of Loader passes — and every
+                                        later read(n) returns a bytearray / raises RuntimeError / raises OSError(EIO):
+                                        the exception of the file object, from load() itself or from the first
+                                        record, never SystemError "returned a result with an exception set")
+
   obs   := ? (not run yet) | <exception name> | ok:<label>,<label>…   (which core compositions reproduce
            the value Python returned; the model says whether its composition is among them)
   pssm  := <M> <M*K f32 bits> <u | d K bits>
@@ -876,6 +881,24 @@ class ShortReader:
         return self.wrap(out)
 
 
+class LateBad:
+    """passes the `read(0)` probe of Loader, fails at every later read"""
+
+    def __init__(self, mode):
+        self.mode, self.calls = mode, 0
+
+    def read(self, n=-1):
+        if n == 0:
+            return b""
+        self.calls += 1
+        if self.mode == "latetype":
+            return bytearray(b">x\n")
+        if self.mode == "lateraise":
+            raise RuntimeError("boom")
+        raise OSError(5, "Input/output error")
+
+
+LATE = {"latetype": ("TypeError", "pytype"), "lateraise": ("RuntimeError", "pyraise"), "lateos": ("OSError", "io")}
 FILELIKE = ("binary", "chunked", "boundary", "greedy")          # read(0) returns bytes: accepted
 NOT_BYTES = ("text", "bytearray", "memoryview")        # read(0) returns something else: TypeError
 READERS = {"jaspar": "readJaspar", "jaspar16": "readJaspar16", "transfac": "readTransfac", "uniprobe": "readUniprobe"}
@@ -914,6 +937,8 @@ def exec_load(cx, head, tail):
         fobj = _io.StringIO(data.decode("latin-1"))
     elif kind in ("chunked", "boundary", "greedy"):
         fobj = ShortReader(data, kind, cseed, cuts)
+    elif kind in LATE:
+        fobj = LateBad(kind)
     elif kind in ("bytearray", "memoryview"):
         fobj = ShortReader(data, "chunked", cseed, cuts, wrap=(bytearray if kind == "bytearray" else memoryview))
     else:
@@ -929,6 +954,28 @@ def exec_load(cx, head, tail):
         line = f"c17load ok:{READERS[fmt]} {kind} {hexs(fmt)} {1 if protein else 0} 0 | {hexs(data)}{extra}"
         return " ".join(line.split()), "adm-ok", None, False, "excluded/core-reader-" + core_all
     g = guarded(lambda: cx.lm.load(fobj, fmt, protein=protein))
+    if kind in LATE:
+        # the file object fails after the probe: ITS exception (or the ValueError of the format), from load()
+        # or from the first record; never a panic, never SystemError (a result with an exception pending)
+        exc, rk = LATE[kind]
+        recs, init_obs = [], g[0]
+        bad_format = fmt not in READERS or (fmt == "jaspar" and protein)
+        if g[0] == "ok":
+            init_obs = "ok:" + READERS.get(fmt, "?")
+            e = guarded(lambda: next(g[1]))
+            recs.append((rk, e[0] if e[0] != "ok" else "ok:"))
+            if bad_format:
+                errs.append("load() succeeded with an unknown format")
+            elif e[0] != exc:
+                errs.append(f"load: a file object whose read fails with {exc} after the probe: the first record gives {e[0]} ({e[1] if len(e) > 1 else ''})")
+        elif bad_format:
+            if g[0] != "ValueError":
+                errs.append(f"load raised {g[0]}, expected ValueError (format)")
+        elif g[0] != exc:
+            errs.append(f"load: a file object whose read fails with {exc} after the probe: load() raised {g[0]}: {g[1]}")
+        line = (f"c17load {init_obs} {kind} {hexs(fmt)} {1 if protein else 0} {len(recs)} "
+                + " ".join(f"{k} {o}" for k, o in recs) + f" | {hexs(data)}{extra}")
+        return " ".join(line.split()), "adm-ok", verdict(errs), not bad_format, key
     # expected outcome of opening, by the documented order: the file first, then the format
     expect = None
     if kind == "missing":
@@ -1270,6 +1317,8 @@ def load_cases(rng, fmt, prot, data, cuts):
     c = ",".join(str(x) for x in cuts) or "-"
     kinds = ["path", "binary", "chunked", "boundary", rng.pick(["bytearray", "memoryview"])]
     out = [f"c17load ? {k} {hexs(fmt)} {prot} 0 | {hexs(data)} {rng.below(1 << 32)} {c}" for k in kinds]
+    if rng.chance(1, 3):
+        out.append(f"c17load ? {rng.pick(list(LATE))} {hexs(fmt)} {prot} 0 | {hexs(data)} 0 -")
     if data and rng.chance(1, 4):
         # the file repeated past the reader's buffer size, through a file object returning more than asked
         big = data * (9000 // len(data) + rng.range(1, 3))
